@@ -75,21 +75,16 @@ def isPow2 (n : Nat) : Bool := n ≠ 0 && n &&& (n - 1) = 0
 def mulLargeFrontier (W : Nat) (lhs rhs : List Nat) : TRepr :=
   ofNat W (val W lhs * val W rhs)
 
-/-- `mul_large(lhs, rhs)` (`mul_ops.rs mod repr`): equal operands go to `square_large`; otherwise a
-    zero-filled buffer of `lhs.len() + rhs.len()` words is passed to `mul::multiply`, i.e.
-    `mul::add_signed_mul(c, Positive, a, b)` with `a` the longer operand.  When the shorter operand has
-    at most `THRESHOLD_SIMPLE` words and the longer at most `simple::CHUNK_LEN`, that is
-    `simple::add_signed_mul_chunk` = `add_mul_chunk` (mirrored in `Model/Int/Mul.lean`); the constants
-    are regenerated from the source (`Dashu.Gen`).  Other sizes (chunk splitting, Karatsuba, Toom-3) and
-    squaring are still frontier. -/
+/-- `mul_large(lhs, rhs)` (`mul_ops.rs mod repr`): equal operands go to `square_large` (frontier);
+    otherwise a zero-filled buffer of `lhs.len() + rhs.len()` words is passed to `mul::multiply`, i.e.
+    `mul::add_signed_mul(c, Positive, lhs, rhs)` (mirrored in `Model/Int/Mul.lean`: schoolbook,
+    chunk splitting, Karatsuba; `toom_3::add_signed_mul_same_len` is the frontier kernel inside it),
+    whose carry is asserted to be zero. -/
 def mulLarge (W : Nat) (lhs rhs : List Nat) : TRepr :=
   if lhs = rhs then mulLargeFrontier W lhs lhs
   else
-    let a := if lhs.length < rhs.length then rhs else lhs
-    let b := if lhs.length < rhs.length then lhs else rhs
-    if b.length ≤ Dashu.Gen.mul_THRESHOLD_SIMPLE ∧ a.length ≤ Dashu.Gen.mul_simple_CHUNK_LEN then
-      fromBuffer W (addMulChunk W a (List.replicate (a.length + b.length) 0) b 0).1
-    else mulLargeFrontier W lhs rhs
+    fromBuffer W (addSignedMul W (lhs.length + rhs.length)
+      (List.replicate (lhs.length + rhs.length) 0) false lhs rhs).1
 
 /-- `mul_dword` -/
 def mulDword (W : Nat) (a b : Nat) : TRepr :=
